@@ -363,6 +363,13 @@ pub(crate) fn all_variants(rng: &mut Rng, a: &str, b: &str, with_single: bool) -
     v.push(Command::AclDelUser { usernames: vec!["u".into()] });
     v.push(Command::AclCat { category: Some("read".into()) });
     v.push(Command::AclGenPass { bits: Some(64) });
+    // scripts: one whose first call can fail, one that only reads, one that fails inside Lua, an unknown sha
+    v.push(script_of(&[Command::Incr(a.clone()), Command::set(b.clone(), payload(rng))]).expect("script"));
+    v.push(script_of(&[Command::LLen(a.clone()), Command::Get(a.clone())]).expect("script"));
+    v.push(script_of(&[Command::HGet(a.clone(), member(rng)), Command::SIsMember(a.clone(), member(rng))]).expect("script"));
+    v.push(Command::Eval { script: "return redis.call('NOSUCHCOMMAND', KEYS[1])".into(), keys: vec![a.clone()], args: vec![] });
+    v.push(Command::Eval { script: "error('boom')".into(), keys: vec![], args: vec![] });
+    v.push(Command::EvalSha { sha1: "0000000000000000000000000000000000000000".into(), keys: vec![a.clone()], args: vec![] });
     if !with_single {
         // only the variants that name a second key (every (src, dst) pair is swept for these)
         v.retain(|c| {
@@ -379,10 +386,7 @@ pub(crate) fn all_variants(rng: &mut Rng, a: &str, b: &str, with_single: bool) -
 
 /// one instance of the variants the sweep does not execute (for the coverage table only)
 pub(crate) fn not_executed_samples() -> Vec<Command> {
-    vec![
-        Command::Eval { script: "return 1".into(), keys: vec![], args: vec![] },
-        Command::EvalSha { sha1: "0".into(), keys: vec![], args: vec![] },
-    ]
+    vec![] // every variant is executed since EVAL / EVALSHA joined the sweep
 }
 
 /// the seed-like fixture: every type with and without a deadline over the common key alphabet
@@ -468,7 +472,13 @@ fn sweep_state(out: &mut Out, rng: &mut Rng, prefix: &[Prep], srcs: &[&str], dst
                 }
                 let mut se = build(prefix);
                 if se.dump() != base[0] {
-                    out.count("sweep:twin-diverged");
+                    // the same prefix replayed on a fresh executor gives another keyspace: the sweep
+                    // would compare nothing — never skipped silently
+                    out.violation(
+                        "C17:harness:twin-diverged",
+                        "replaying the same prepared prefix on a fresh executor gave a different visible keyspace: the twin comparison of the sweep is void for this state",
+                        json!({"prepared_state": human, "first": base[0], "second": se.dump()}),
+                    );
                     continue;
                 }
                 let replay = |what: &str, at: u64, got: &str, want: &str, reply: &str| {
@@ -481,6 +491,11 @@ fn sweep_state(out: &mut Out, rng: &mut Rng, prefix: &[Prep], srcs: &[&str], dst
                 if ro {
                     let ex = &se.ex;
                     let r0 = std::panic::catch_unwind(std::panic::AssertUnwindSafe(|| ex.execute_readonly(&cmd)));
+                    if r0.is_err() {
+                        out.violation(&format!("C17:crash:execute_readonly:{}", cmd.name()), "CommandExecutor::execute_readonly panicked",
+                            replay("execute_readonly", pts[0], "crash", &base[0], "crash"));
+                        continue;
+                    }
                     let d0 = se.dump();
                     if d0 != base[0] {
                         out.violation(
@@ -569,6 +584,98 @@ fn oracle_sweep(out: &mut Out, rng: &mut Rng, n_states: u64) {
     out.extra.insert("command_variants_total".into(), json!(rows.len()));
 }
 
+/// the read-only classification three ways: the list in the SOURCE of `Command::is_read_only`
+/// (build.rs), what the binary answers for an instance, and — through the op lines of
+/// `ro_table_pass` — the model's `isReadOnly`
+fn source_tables(out: &mut Out, rng: &mut Rng) {
+    let mut samples = all_variants(rng, "a", "b", true);
+    samples.extend(not_executed_samples());
+    let mut rows: std::collections::BTreeMap<String, serde_json::Value> = std::collections::BTreeMap::new();
+    let mut seen: std::collections::BTreeMap<&'static str, (u64, u64)> = std::collections::BTreeMap::new();
+    for c in &samples {
+        let (name, _) = variant_info(c);
+        let e = seen.entry(name).or_insert((0, 0));
+        if c.is_read_only() {
+            e.0 += 1;
+        } else {
+            e.1 += 1;
+        }
+    }
+    if !READ_ONLY_IS_PLAIN_LIST {
+        out.violation(
+            "C17:source:read-only-classification-not-a-plain-variant-list",
+            "Command::is_read_only is no longer one matches!() over plain variant patterns (`X`, `X(_, …)`, `X { .. }`): a classification that depends on field values (or a second list) is not covered by the per-variant table of this check",
+            json!({"file": "src/redis/command.rs"}),
+        );
+    }
+    for v in COMMAND_VARIANTS {
+        match seen.get(v) {
+            None => out.violation(
+                &format!("C17:coverage:variant-not-driven:{}", v),
+                &format!("`Command::{}` is in the enum (src/redis/command.rs) but the sweep builds no instance of it", v),
+                json!({"variant": v}),
+            ),
+            Some((ro, wr)) => {
+                let src = READ_ONLY_VARIANTS.contains(v);
+                if *ro > 0 && *wr > 0 {
+                    out.violation(
+                        &format!("C17:source:read-only-depends-on-fields:{}", v),
+                        &format!("instances of `Command::{}` are classified read-only or not depending on their fields", v),
+                        json!({"variant": v, "read_only_instances": ro, "write_instances": wr}),
+                    );
+                } else if src != (*ro > 0) {
+                    out.violation(
+                        &format!("C17:source:read-only-list-differs-from-classification:{}", v),
+                        &format!("`Command::{}`: listed in the source of is_read_only = {}, but is_read_only() of an instance = {}", v, src, *ro > 0),
+                        json!({"variant": v}),
+                    );
+                }
+                rows.insert(v.to_string(), json!({"in_source_list": src, "is_read_only()": *ro > 0, "instances": ro + wr}));
+            }
+        }
+    }
+    for name in seen.keys() {
+        if !COMMAND_VARIANTS.contains(name) {
+            eprintln!("source scan of `enum Command` is stale: the binary has a variant {} the scan did not see", name);
+            std::process::exit(3);
+        }
+    }
+    for v in READ_ONLY_VARIANTS {
+        if !COMMAND_VARIANTS.contains(v) {
+            eprintln!("source scan of is_read_only names {} which is not a variant", v);
+            std::process::exit(3);
+        }
+    }
+    out.extra.insert("read_only_table(source list vs binary)".into(), json!(rows));
+    out.extra.insert("command_variants_in_source".into(), json!(COMMAND_VARIANTS.len()));
+}
+
+/// every modelled variant once as an op line, so that the model's `isReadOnly` is compared with
+/// `Command::is_read_only()` for the WHOLE table on every run (not only for what the random
+/// sequences happen to generate)
+fn ro_table_pass(out: &mut Out, rng: &mut Rng) {
+    let mut se = reset(out, BASE_MS);
+    let mut seq: Vec<String> = Vec::new();
+    for p in fixture_prefix(0) {
+        seq.push(format!("{:?}", p.cmd));
+        do_step(out, &mut se, &p.cmd, "C17", &seq);
+    }
+    let dummy = redis_sim::redis::RespValue::BulkString(None);
+    let mut n = 0u64;
+    for cmd in all_variants(rng, "a", "b", true) {
+        if (enc_cmd(&cmd, &dummy).is_none() && enc_xcmd(&cmd).is_none()) || matches!(cmd, Command::FlushDb | Command::FlushAll) {
+            continue;
+        }
+        seq.push(format!("{:?}", cmd));
+        do_step(out, &mut se, &cmd, "C17", &seq);
+        n += 1;
+        if seq.len() > 40 {
+            seq.drain(..20);
+        }
+    }
+    out.count_n("ro-table-pass:modelled-instances", n);
+}
+
 pub fn corpus(out: &mut Out) {
     // DESIGN.md §6.1, C17 row
     run_scripted(out, "C17", "rpoplpush-dst-wrongtype", vec![
@@ -596,6 +703,20 @@ pub fn corpus(out: &mut Out) {
         sc(0, true, Command::Sort { key: k("src"), store: Some(k("dst")) }),
         sc(0, true, Command::Pttl(k("dst"))),
     ]);
+    // the property as stated covers scripts: a redis.call that fails after an earlier call has written
+    // aborts the script with the error and the earlier write stays (Redis' own semantics: no rollback)
+    run_scripted(out, "C17", "script-partial-effects", vec![
+        sc(0, true, Command::RPush(k("l"), vec![s("x")])),
+        sc_script(0, true, vec![Command::set(k("a"), s("x")), Command::Incr(k("l"))]),
+        sc(0, true, Command::Get(k("a"))),
+    ]);
+    // … a script whose FIRST call fails changes nothing, and so does one that only reads before failing
+    run_scripted(out, "C17", "script-first-call-fails", vec![
+        sc(0, true, Command::RPush(k("l"), vec![s("x")])),
+        sc_script(0, true, vec![Command::Incr(k("l")), Command::set(k("a"), s("x"))]),
+        sc_script(0, true, vec![Command::LLen(k("l")), Command::Get(k("l")), Command::Del(vec![k("l")])]),
+        sc(0, true, Command::Exists(vec![k("a"), k("l")])),
+    ]);
     run_scripted(out, "C17", "lmove-dst-wrongtype", vec![
         sc(0, true, Command::RPush(k("src"), vec![s("a"), s("b")])),
         sc(0, true, Command::set(k("dst"), s("s"))),
@@ -607,9 +728,13 @@ pub fn run(a: &Args) {
     let mut out = Out::new(&a.out);
     let mut rng = Rng::new(a.seed ^ 0x17);
     corpus(&mut out);
+    source_tables(&mut out, &mut rng.fork());
+    ro_table_pass(&mut out, &mut rng.fork());
     for _ in 0..a.n {
         run_random_sequence(&mut out, &mut rng, "C17", &gen, 5);
     }
+    report_executor_api(&mut out, "C17");
+    out.extra.insert("audit".into(), audit_c17());
     let n_states = (a.n / 50).clamp(20, 1000);
     oracle_sweep(&mut out, &mut rng, n_states);
     // per-command × classification × key-state table of the sweep, for the evidence
